@@ -445,6 +445,10 @@ func main() {
 			r.stats["gen-error-schemas"]++
 		} else {
 			s = g.schema(d, posRoot)
+			if g.r.Chance(1, 8) && g.refDoc(s, d) {
+				r.stats["gen-ref-docs"]++
+				r.stats[fmt.Sprintf("gen-ref-docs-defs-%d", len(defsOrder(s)))]++
+			}
 		}
 		if g.deviate {
 			r.stats["gen-deviate-mode"]++
